@@ -174,7 +174,7 @@ func processRegexForCompare(ruleId string, chainOffset uint8, regex string, ctxt
 	logger.Info().Msgf("Processing %s, chain offset %d", ruleId, chainOffset)
 
 	rulePrefix := ruleId[:3]
-	matches, err := utils.GlobInDir(ctxt.RootContext().RulesDir(), fmt.Sprintf("*-%s-*", rulePrefix))
+	matches, err := utils.GlobInDir(ctxt.RootContext().RulesDir(), fmt.Sprintf("*-%s-*.conf", rulePrefix))
 	if err != nil {
 		logger.Error().Err(err).Msgf("Failed to find rule file for rule id %s", ruleId)
 		return err
